@@ -5,6 +5,8 @@ def stages(tier):
     return [
         {"name": "coalesce", "cmd": "coalesce", "args": [], "check": "Check.Coalesce.check_coalesce",
          "timeout": 300, "timeout_thorough": 1500, "search_budget": 60},
+        {"name": "otherfs", "cmd": "relayx", "args": ["-prop", "C05x"], "check": "file cache directory on another filesystem than the system temp directory: one origin fetch for simultaneous identical GETs, answer stored (direct)",
+         "timeout": 120, "timeout_thorough": 300},
     ]
 
 
